@@ -147,6 +147,7 @@ def list_getitem_replacement(self, idx):
 #
 
 _intrinsic(str.__eq__)
+_intrinsic(str.__ne__)
 _intrinsic(str.__len__)
 _intrinsic(str.format)
 
